@@ -10,7 +10,7 @@ import progs  # noqa: E402
 
 
 def main():
-    chk = Check('C01', extra_modules=['Bardolph.Props.C01Sim', 'Bardolph.Proofs.Sim', 'Bardolph.Proofs.SimStmts', 'Bardolph.Proofs.SimLoops', 'Bardolph.Proofs.SimLoad', 'Bardolph.Proofs.SimCalls'])
+    chk = Check('C01', extra_modules=['Bardolph.Props.C01Sim', 'Bardolph.Proofs.Sim', 'Bardolph.Proofs.SimX', 'Bardolph.Proofs.SimVals', 'Bardolph.Proofs.SimStmts', 'Bardolph.Proofs.SimFrame', 'Bardolph.Proofs.SimIter', 'Bardolph.Proofs.SimLoops', 'Bardolph.Proofs.SimLoad', 'Bardolph.Proofs.SimCalls', 'Bardolph.Proofs.SimTop', 'Bardolph.Proofs.SimReloc', 'Bardolph.Proofs.SimDefs'])
     chk.lean_phase(sections=set())
     rng = chk.rng
     n = 2500 if chk.thorough else 260
@@ -95,6 +95,30 @@ def _corpus():
                                     ('light', ('str', 'Strip'))], 'L', None),
                   [('print', ('call', 'deep', [num(2)])), ('action', 'on', [('light', v('L'))])]),
                  ('print', ('expr', ('bin', '+', num(100), ('call', 'deep', [num(2)]))))], pop))
+    # routine definitions nested in an `if` branch with `else` and in a loop body whose `break`
+    # jumps over one of them (the loader shortens three jumps of the main code): the eighth example
+    # of Props/C01Sim.lean, and a variant whose `else` branch runs
+    for first in (1, 0):
+        out.append(([('if', ('expr', ('bin', '>', num(first), num(0))),
+                      [('define', 'sq', ['x'], [('return', ('expr', ('bin', '*', v('x'), v('x'))))]),
+                       ('print', num(1))],
+                      [('print', num(2))]),
+                     ('repeat', ('count', num(2)),
+                      [('print', ('call', 'sq', [num(3)])),
+                       ('define', 'fact', ['n'],
+                        [('if', ('expr', ('bin', '<=', v('n'), num(1))), [('return', num(1))], None),
+                         ('return', ('expr', ('bin', '*', v('n'),
+                                              ('call', 'fact', [('expr', ('bin', '-', v('n'), num(1)))]))))]),
+                       ('if', ('expr', ('bin', '>', ('call', 'fact', [num(3)]), num(5 if first else 50))),
+                        [('break',)], None),
+                       ('print', num(99))]),
+                     ('println', ('call', 'fact', [num(4)]))], pop))
+    # a routine defined inside the body of a matrix block, called after it
+    out.append(([('setreg', 'hue', num(10)),
+                 ('action', 'set', [('matrix_block', ('str', 'Candle'),
+                                     [('define', 'f', [], [('print', num(7))]),
+                                      ('stage', (num(0), None), None, False)])]),
+                 ('call', 'f', []), ('print', num(3))], pop))
     # every edge between unit modes with a duration and a delay pending: the commands and waits
     # before and after the switch carry the durations the source says
     import itertools
